@@ -349,3 +349,26 @@ def _replay_export_total(model, contract):
 for _q in list(CONTRACTS):
     if _q.startswith("results:_output_to_df#total_of_a_"):
         CONTRACTS[_q]["replay_hook"] = _replay_export_total
+
+
+# ---- Model._update_program_cache, the compartments a program reaches during the run (C13 / C11: "the current size of the targeted compartments"): for one program, every targeted
+# compartment of EVERY targeted population, population by population -- the denominator the run uses is the one Result.get_coverage reports
+def _env_prog_cache(it):
+    from pyvc.interp import PyObjV
+    from pyvc import source
+
+    mm = source.load("model")
+    comps = {(p, c): PyObjV("Compartment", mm, {"name": c, "POP": p}) for p in ("a", "b") for c in ("x", "y")}
+    pops = {p: PyObjV("Population", mm, {"name": p}) for p in ("a", "b")}
+    prog = PyObjV("Program", source.load("programs"), {"name": "prog", "target_pops": ["a", "b"], "target_comps": ["x", "y"]})
+    self = PyObjV("Model", mm, {"_program_cache": {"comps": {"other": ["kept"]}}})
+    return {"self": self, "prog": prog, "COMPS": comps, "POPS": pops}
+
+
+_cache_stubs = {"self.get_pop": (lambda it, name: it.live_env["POPS"][name]), "self.get_pop(pop_name).get_comp": (lambda it, name: it.live_env["COMPS"][(it.stub_receiver.fields["name"], name)])}
+CONTRACTS["model:Model._update_program_cache#compartments_of_one_program"] = dict(
+    schema=schema, fragment={"iter": "self.progset.programs.values()", "body_contains": "target_pops"}, make_env=_env_prog_cache, call_stubs=_cache_stubs,
+    ensures=[("C13+C11.a_program_reaches_every_targeted_compartment_of_every_targeted_population",
+              "len(self._program_cache['comps']['prog']) == 4 and self._program_cache['comps']['prog'][0] is COMPS['a', 'x'] and self._program_cache['comps']['prog'][1] is COMPS['a', 'y'] "
+              "and self._program_cache['comps']['prog'][2] is COMPS['b', 'x'] and self._program_cache['comps']['prog'][3] is COMPS['b', 'y'] and self._program_cache['comps']['other'] == ['kept']")],
+    defined_props=["C13", "C11"])
